@@ -1025,7 +1025,7 @@ Proof.
     destruct (conns s c) as [x|] eqn:Hx; [|discriminate]. destruct (loop x); try discriminate.
     destruct (t0 =? t); inv_some. cbn. repeat split; auto; try (intros; now rewrite upd_other).
     intros c0 x0 Hx0. upd_cases.
-    + rewrite Hx in Hx0. inv_some. eexists. split; [reflexivity|]. repeat split.
+    + rewrite Hx in Hx0. inv_some. eexists. split; [reflexivity|]. repeat split; auto.
     + apply Same; auto.
   - destruct (tmsgs th) as [|m rest]; inv_some; [cbn; repeat split; auto; intros; now rewrite upd_other|].
     destruct (conn_send s c m o) as [s1 ok] eqn:Hs.
@@ -1062,10 +1062,11 @@ Proof.
   exists x'. repeat split; congruence.
 Qed.
 
-Lemma usable_ext s s' c : ext s s' -> usable s c -> usable s' c.
+Lemma usable_set_loop s c x l th' :
+  conns s c = Some x -> usable s c -> usable (set_thread (set_conn s c (set_loop x l)) t th') c.
 Proof.
-  intros [_ E] (x & Hx & A & B & C & D). destruct (E _ _ Hx) as (x' & Hx' & S1 & S2 & S3 & S4 & S5).
-  exists x'. repeat split; congruence.
+  intros Hx (x0 & Hx0 & A & B & C & D). rewrite Hx in Hx0. inv_some.
+  exists (set_loop x0 l). cbn. rewrite upd_same. repeat split; auto.
 Qed.
 
 Lemma to_current_ext s s' c : ext s s' -> to_current s c -> to_current s' c.
@@ -1186,8 +1187,8 @@ Proof.
       * eapply Hns; eauto.
     + eexists. split; [cbn; now rewrite upd_same|]. cbn. split; auto. split.
       * unfold pcJ. cbn. destruct outer as [c0|]; cbn.
-        -- destruct Hpc as (A & B & C). repeat split; auto; [eapply usable_ext|eapply known_ext]; eauto.
-        -- destruct Hpc as (A & B). split; auto. apply usable_known. eapply usable_ext; eauto.
+        -- destruct Hpc as (A & B & C). repeat split; auto; [eapply usable_set_loop|eapply known_ext]; eauto.
+        -- destruct Hpc as (A & B). split; auto. apply usable_known. eapply usable_set_loop; eauto.
       * exists D. cbn. repeat split; auto. eapply Forall_current_ext; eauto.
   - (* PMsg *)
     destruct Hpc as (Hne & (x & Hx & Hpx & Hsx)).
